@@ -145,6 +145,10 @@ class Leaves:
             pn, hn = GEN_SINKS[q]
             pts, hw = bound.get(pn), bound.get(hn)
             img = hw.of if isinstance(hw, Shape) else None
+            if isinstance(hw, Mismatch):
+                # the size of an image that is in different frames on different paths: still no single frame
+                alts = tuple(a.of if isinstance(a, Shape) else a for a in hw.alts)
+                img = Mismatch(alts, hw.why) if all(isinstance(a, Geo) for a in alts) else None
             rec = {"generator": q.split(":")[-1], "caller": fr.fi.qualname if fr.fi else "?", "points": repr(pts), "image": repr(img),
                    "sigma": repr(bound.get("sigma")), "output_stride": repr(bound.get("output_stride")), "where": w}
             self.target_calls.append(rec)
